@@ -208,6 +208,11 @@ func (m *Machine) addPC(c *Term) {
 }
 
 func (m *Machine) check(extra ...*Term) Verdict {
+	if m.ex != nil && !m.ex.Deadline.IsZero() && time.Now().After(m.ex.Deadline.Add(20*time.Second)) {
+		// the harness deadline passed while this path was still running: give the path up
+		// (reported as inconclusive, never as a verdict)
+		panic(pathAbort{abortBound, "exploration deadline hit inside a path"})
+	}
 	lits := make([]*Term, 0, len(m.pc)+len(extra))
 	lits = append(lits, m.pc...)
 	lits = append(lits, extra...)
